@@ -1018,7 +1018,7 @@ def check_store(i, where, blocks, dup, mstore, id2fp, fp2id, prev_blocks, prev_m
                 show = lambda c: ["%s = %s" % (" / ".join(k), v) for (k, v), _n in c.items() if k in bad]
                 raise Mismatch("modify-touches-other", i,
                                "%s_MODIFY %d %s %s changed quantities it does not name: %s" %
-                               (KW[x["kind"]], x["n"], " ".join("%s %s" % p for p in x.get("sel", [])) or x.get("section", ""), x["field"],
+                               (KW[x["kind"]], x["n"], " ".join("%s %s" % tuple(p) for p in x.get("sel", [])) or x.get("section", ""), x["field"],
                                 [" / ".join(k) for k in bad[:5]]),
                                observed={"before": show(before)[:8], "after": show(after)[:8]}, expected="only the named quantity changes")
             tkey = mod_target(x)
@@ -1070,7 +1070,7 @@ def entries(lines):
 def mod_target(x):
     if x.get("section"):
         return (x["section"], x["field"])
-    return tuple("%s %s" % p for p in x.get("sel", [])) + (x["field"],)
+    return tuple("%s %s" % tuple(p) for p in x.get("sel", [])) + (x["field"],)
 
 
 def mod_allows(x, k, before):
@@ -1083,7 +1083,7 @@ def mod_allows(x, k, before):
         elt = x["field"].split("(")[0]
         secs = ("-totals", "-activities") if x["section"] == "-totals" else ("-activities",)
         return len(k) == 2 and k[0] in secs and (k[1] == elt or k[1].startswith(elt + "("))
-    sel = tuple("%s %s" % p for p in x.get("sel", []))
+    sel = tuple("%s %s" % tuple(p) for p in x.get("sel", []))
     if k == sel + (x["field"],):
         return True
     if sel and k[:len(sel)] == sel and not any(kk[:len(sel)] == sel for kk, _v in before):
@@ -1213,45 +1213,46 @@ def report(ctx, hist, m):
 NONE_LINES = "".join("USE %s none\n" % k for k in USE_ALL)
 
 
-def finding_probe(ctx, stats):
-    """FINDING range-copy-deferred (unchanged tree, see notes/C14.md): for SOLUTION, EQUILIBRIUM_PHASES,
-    EXCHANGE, SURFACE, SOLID_SOLUTIONS, GAS_PHASE and KINETICS the copies of `KEYWORD n-m` are made
-    in tidy_* / initial_* after ALL input of the simulation has been read, in ascending order of n, so
-    overlapping ranges in one simulation do not act as successive writes: here SOLUTION 2-4 followed by
-    SOLUTION 0-3 leaves no solution 4 at all."""
+def finding_histories():
+    """fixed histories for the two findings of the unchanged tree (notes/C14.md), run together with the
+    random ones.
+
+    range-copy-deferred: for SOLUTION, EQUILIBRIUM_PHASES, EXCHANGE, SURFACE, SOLID_SOLUTIONS, GAS_PHASE and
+    KINETICS the copies of `KEYWORD n-m` are made in tidy_* / initial_* after ALL input of the simulation has
+    been read, in ascending order of n: SOLUTION 2-4 followed by SOLUTION 0-3 leaves no solution 4 at all.
+
+    exchange-modify-component: cxxExchange::read_raw looks the component of `-component NaX` up with
+    Find_comp(), which compares the name with the ELEMENT names of the components' totals (Na, X), never
+    with the formula; no component is found, a fresh one holding only the given fields is appended and
+    Sort_comps() lets it replace the stored one: the component's totals are lost."""
     def d(kind, n, n_end, did, body):
         hdr = "%s %d-%d\n" % (KW[kind], n, n_end)
         return {"op": "def", "kind": kind, "n": n, "n_end": n_end, "id": did, "text": hdr + body, "tmpl": {"def": did}}
-    st = {"reads": [d("KSol", 2, 4, 9001, " Mg 1\n Cl 2\n"), d("KSol", 0, 3, 9002, " Ca 2\n Cl 4\n")],
-          "react": None, "cells": [], "mixes": [], "copies": [], "delete": None, "dump": False, "order": [0, 1, 2]}
-    hist = [st]
-    prepare(hist, None)
-    bad = examine({"finding1": hist}, {}, stats)
-    for _hid, m in bad:
-        ctx.violation("C14:range-copy-deferred",
-                      "overlapping number ranges defined in one simulation are not successive writes: after `SOLUTION 2-4` then `SOLUTION 0-3` "
-                      "solution 4 does not exist (%s)" % m.what,
-                      {"kind": "ops", "database": "phreeqc.dat", "category": m.cat, "failing_step": m.step, "ops": strip(hist),
-                       "input_text": [x["_text"] for x in hist], "observed": m.observed, "expected": m.expected})
-    stats["finding_probe_mismatch"] = len(bad)
-    # FINDING exchange-modify-component (unchanged tree): cxxExchange::read_raw looks the component of
-    # `-component NaX` up with Find_comp(), which compares the name with the ELEMENT names of the components'
-    # totals (Na, X), never with the formula; no component is found, a fresh one holding only the given
-    # fields is appended and Sort_comps() lets it replace the stored one: the component's totals are lost.
+    blank = {"react": None, "cells": [], "mixes": [], "copies": [], "delete": None, "dump": False}
+    h1 = [dict(blank, reads=[d("KSol", 2, 4, 9001, " Mg 1\n Cl 2\n"), d("KSol", 0, 3, 9002, " Ca 2\n Cl 4\n")], order=[0, 1, 2])]
     ex = {"op": "def", "kind": "KExch", "n": 1, "n_end": 1, "id": 9003, "text": "EXCHANGE 1\n NaX 0.01\n CaX2 0.02\n", "tmpl": {"def": 9003}}
     md = {"op": "mod", "kind": "KExch", "n": 1, "id": 9004, "field": "-la", "value": 0.5, "sel": [("-component", "NaX")],
           "text": "EXCHANGE_MODIFY 1\n -component NaX\n  -la 0.5\n"}
-    blank = {"react": None, "cells": [], "mixes": [], "copies": [], "delete": None, "dump": False}
-    hist2 = [dict(blank, reads=[ex], order=[0, 1]), dict(blank, reads=[md], order=[0, 1])]
-    prepare(hist2, None)
-    bad2 = examine({"finding2": hist2}, {}, stats)
-    for _hid, m in bad2:
-        ctx.violation("C14:exchange-modify-component",
-                      "EXCHANGE_MODIFY of a component loses that component's totals: after `EXCHANGE 1; NaX 0.01; CaX2 0.02` the block "
-                      "`EXCHANGE_MODIFY 1; -component NaX; -la 0.5` leaves component NaX without Na and X (%s)" % m.what,
-                      {"kind": "ops", "database": "phreeqc.dat", "category": m.cat, "failing_step": m.step, "ops": strip(hist2),
-                       "input_text": [x["_text"] for x in hist2], "observed": m.observed, "expected": m.expected})
-    stats["finding2_probe_mismatch"] = len(bad2)
+    h2 = [dict(blank, reads=[ex], order=[0, 1]), dict(blank, reads=[md], order=[0, 1])]
+    prepare(h1, None)
+    prepare(h2, None)
+    return {"finding1": (h1, "C14:range-copy-deferred",
+                         "overlapping number ranges defined in one simulation are not successive writes: after `SOLUTION 2-4` then "
+                         "`SOLUTION 0-3` solution 4 does not exist"),
+            "finding2": (h2, "C14:exchange-modify-component",
+                         "EXCHANGE_MODIFY of a component loses that component's totals: after `EXCHANGE 1; NaX 0.01; CaX2 0.02` the block "
+                         "`EXCHANGE_MODIFY 1; -component NaX; -la 0.5` leaves component NaX without Na and X")}
+
+
+def report_findings(ctx, fh, bad, stats):
+    for hid, m in bad:
+        if hid not in fh:
+            continue
+        hist, key, text = fh[hid]
+        ctx.violation(key, "%s (%s)" % (text, m.what),
+                      {"kind": "ops", "database": "phreeqc.dat", "category": m.cat, "failing_step": m.step, "ops": strip(hist),
+                       "input_text": [x["_text"] for x in hist], "observed": m.observed, "expected": m.expected})
+        stats["%s_probe_mismatch" % hid] = 1
 
 
 def run(ctx):
@@ -1299,8 +1300,12 @@ def run(ctx):
             twins[hid] = (t, back)
         for k, v in g.stats.items():
             dist[k] = dist.get(k, 0) + v
-    bad = examine(hists, twins, stats)
-    finding_probe(ctx, stats)
+    fh = finding_histories()
+    allh = dict(hists)
+    allh.update({k: v[0] for k, v in fh.items()})
+    bad = examine(allh, twins, stats)
+    report_findings(ctx, fh, bad, stats)
+    bad = [(h, m) for h, m in bad if h not in fh]
     for hid, hist in hists.items():
         for i, st in enumerate(hist):
             kinds = sorted(set([x["op"] + ":" + x["kind"] for x in st["reads"]] + (["react"] if st["react"] else []) + (["cells"] if st["cells"] else [])
